@@ -162,11 +162,13 @@ type FuncSpec struct {
 	Inline   bool
 	Opaque   bool // body not verified (trusted) for repo functions
 	Mutates  []string
+	Reveal   []string
 	Used     bool
 	fn       *ssa.Function
 }
 
 type FunDef struct {
+	Opaque  bool // heap-dependent predicate kept as an uninterpreted symbol outside its home package
 	Name    string
 	Params  []Binder
 	Ret     *TypeExpr // nil for pred (bool)
@@ -192,6 +194,7 @@ type Axiom struct {
 }
 
 type Lemma struct {
+	Reveal   []string
 	Name     string
 	Tags     []string
 	Params   []Binder
@@ -581,7 +584,7 @@ func parseExprString(src string) (e Expr, err error) {
 
 // ---------- file-level parsing ----------
 
-var declKeywords = map[string]bool{"import": true, "ghost": true, "fun": true, "pred": true, "ufun": true,
+var declKeywords = map[string]bool{"opaque": true, "reveal": true, "import": true, "ghost": true, "fun": true, "pred": true, "ufun": true,
 	"axiom": true, "func": true, "extern": true, "lemma": true, "requires": true, "ensures": true,
 	"modifies": true, "loop": true, "invariant": true, "pure": true, "free": true, "trusted": true, "mutates": true,
 	"package": true}
@@ -663,6 +666,17 @@ func (db *SpecDB) LoadSpecFile(path string, pkgPath string) error {
 			kw = t[:j]
 			rest = strings.TrimSpace(t[j+1:])
 		}
+		opaqueDecl := false
+		if kw == "opaque" {
+			opaqueDecl = true
+			t = rest
+			kw = t
+			rest = ""
+			if j := strings.IndexAny(t, " \t"); j >= 0 {
+				kw = t[:j]
+				rest = strings.TrimSpace(t[j+1:])
+			}
+		}
 		free := false
 		if kw == "free" {
 			free = true
@@ -721,7 +735,7 @@ func (db *SpecDB) LoadSpecFile(path string, pkgPath string) error {
 					return err
 				}
 				p := &parser{toks: toks}
-				fd := &FunDef{Name: p.ident(), PkgPath: pkgPath, File: path, Line: ll.line}
+				fd := &FunDef{Name: p.ident(), PkgPath: pkgPath, File: path, Line: ll.line, Opaque: opaqueDecl}
 				p.expectOp("(")
 				if !p.isOp(")") {
 					for {
@@ -859,6 +873,20 @@ func (db *SpecDB) LoadSpecFile(path string, pkgPath string) error {
 			}
 			for _, f := range strings.Split(rest, ",") {
 				cur.Mutates = append(cur.Mutates, strings.TrimSpace(f))
+			}
+		case "reveal":
+			for _, f := range strings.Split(rest, ",") {
+				f = strings.TrimSpace(f)
+				if f == "" {
+					continue
+				}
+				if cur != nil {
+					cur.Reveal = append(cur.Reveal, f)
+				} else if curLemma != nil {
+					curLemma.Reveal = append(curLemma.Reveal, f)
+				} else {
+					return fail(ll, "reveal outside func/lemma")
+				}
 			}
 		case "pure":
 			if cur == nil {
